@@ -724,6 +724,29 @@ func onFailingPath(blk *ssa.BasicBlock) bool {
 // decoderInternalCleared: the decoder value passed at `at` is loaded from a local whose flags
 // field was assigned `... &^ K` (K including both internal bits) on every path to the call.
 func decoderInternalCleared(dec ssa.Value, at *ssa.Call, internalBits uint64) bool {
+	// decoder{}: the zero decoder carries no flag at all
+	if k, isK := dec.(*ssa.Const); isK && k.Value == nil {
+		return true
+	}
+	if l0, isLd := dec.(*ssa.UnOp); isLd && l0.Op == token.MUL {
+		if al, isAl := l0.X.(*ssa.Alloc); isAl {
+			zero := true
+			for _, ref := range *al.Referrers() {
+				switch x := ref.(type) {
+				case *ssa.Store:
+					if k, isK := x.Val.(*ssa.Const); !isK || k.Value != nil {
+						zero = false
+					}
+				case *ssa.UnOp:
+				default:
+					zero = false
+				}
+			}
+			if zero {
+				return true
+			}
+		}
+	}
 	ld, ok := dec.(*ssa.UnOp)
 	if !ok || ld.Op != token.MUL {
 		return false
